@@ -13,15 +13,16 @@ HELPER = os.path.join(REPO, "crates", "cpp", "helper-types")
 
 
 def gxx_errors(err):
-    """[(file class, message, site, raw line)] of a g++ diagnostic text"""
+    """[(file class, message, site, raw line, file, line number)] of a g++ diagnostic text"""
     lines = err.splitlines()
     out = []
     for i, l in enumerate(lines):
-        m = re.match(r"^\s*(?:/verif/work/C31/out/\d+/)?([^:\s]+):(\d+):(\d+): (?:fatal )?error: (.*)$", l)
+        m = re.match(r"^\s*((?:/verif/work/C31/out/\d+/)?[^:\s]+):(\d+):(\d+): (?:fatal )?error: (.*)$", l)
         if not m:
             continue
         f = m.group(1)
-        where = "exports-stub-header" if re.match(r"exports-[^:]*\.h$", f) else re.sub(r"[0-9]+", "N", os.path.basename(f))
+        base = os.path.basename(f)
+        where = "exports-stub-header" if re.match(r"exports-[^:]*\.h$", base) else re.sub(r"[0-9]+", "N", base)
         site = ""
         for k in lines[i + 1:i + 4]:
             mm = re.match(r"^\s*\d+ \| (.*)$", k)
@@ -29,8 +30,135 @@ def gxx_errors(err):
                 site = re.sub(r"\d+", "N", re.sub(r"\s+", " ", mm.group(1)).strip())[:70]
                 break
         msg = m.group(4).split("In file included from")[0].strip()      # head and tail of a long text glued together
-        out.append((where, re.sub(r"[0-9]+", "N", msg), site, l.strip()))
+        out.append((where, re.sub(r"[0-9]+", "N", msg), site, l.strip(), f, int(m.group(2)), msg))
     return list(dict.fromkeys(out))
+
+
+# ---- use before declaration in the generated headers (the listed findings F-C31-1 and F-C31-6) ---------------------------
+# Both findings are one defect of *layout*: a generated header mentions a name that the same translation unit declares only
+# further down, and a resource class is one of the two parties (F-C31-1: the user stub header of an exported resource is
+# included before the namespace that defines the interface's types; F-C31-6: a record / variant holding own<r> / borrow<r>
+# and the class of r refer to each other).  g++ reports such a line, and then everything that depended on the declaration it
+# could not read: the stub's member is dropped or typed `int` (-fpermissive), the struct loses a field -- so the wording of the
+# follow-on messages depends on the type expression (`cannot convert 'wit::vector<T0>' to 'int'`, `... 'std::optional<T0>'
+# ...`, `too many initializers for 'T0::C1'`), which is why they are not listed by message.  They are recognised by
+# *structure*, from the generated text itself:
+#   root line    a line of a stub header that mentions a type the world header defines (the stub is included before the
+#                first namespace), or a line of the world header that mentions a class / struct / enum / alias declared on
+#                a later line of it, where that name or the class the line sits in is a resource class;
+#   tainted      what a root line declares: the member function (class, name) or the structs that enclose the field;
+#   follow-on    any g++ error *on* a root line, and an error in the .cpp whose source line calls / defines a tainted member
+#                or whose message names a tainted struct.
+# Everything else g++ says about the unit is keyed and reported as before.
+
+_DECL_RE = re.compile(r"^(\s*)(?:struct|class|enum class|enum|using)\s+(\w+)")
+_RES_RE = re.compile(r"^\s*class\s+(\w+)\s*:\s*public\s+wit::Resource(?:Import|Export)Base")
+
+
+def _enclosing(lines, n):
+    """names of the struct / class declarations that enclose line n (1-based), innermost first, with those opened on the line itself"""
+    text = lines[n - 1]
+    names = re.findall(r"\b(?:struct|class)\s+(\w+)\s*(?::[^{]*)?\{", text)[::-1]
+    ind = len(text) - len(text.lstrip())
+    for k in range(n - 2, -1, -1):
+        m = _DECL_RE.match(lines[k])
+        if m and len(m.group(1)) < ind and re.match(r"^\s*(?:struct|class)\b", lines[k]):
+            names.append(m.group(2))
+            ind = len(m.group(1))
+        elif re.match(r"^\s*namespace\b", lines[k]) and len(lines[k]) - len(lines[k].lstrip()) < ind:
+            break
+    return names
+
+
+class HeaderLayout:
+    """what one generated output directory declares where (read from the files, not from g++'s messages)"""
+
+    def __init__(self, out_dir):
+        self.out = out_dir
+        self.files = {}
+        hdrs = sorted(glob.glob(os.path.join(out_dir, "*_cpp.h")))
+        self.world_hdr = os.path.basename(hdrs[0]) if hdrs else None
+        for p in glob.glob(os.path.join(out_dir, "*.h")) + glob.glob(os.path.join(out_dir, "*.cpp")):
+            try:
+                self.files[os.path.basename(p)] = open(p, errors="replace").read().splitlines()
+            except OSError:
+                pass
+        wl = self.files.get(self.world_hdr, [])
+        self.decl = {}          # name -> line numbers of its declarations in the world header
+        for n, l in enumerate(wl, 1):
+            m = _DECL_RE.match(l)
+            if m:
+                self.decl.setdefault(m.group(2), []).append(n)
+            for nm in re.findall(r"\bstruct\s+(\w+)\s*\{", l)[1:]:
+                self.decl.setdefault(nm, []).append(n)
+        first_ns = next((n for n, l in enumerate(wl, 1) if re.match(r"^\s*namespace\b", l)), len(wl) + 1)
+        self.early_stubs = {m.group(1) for l in wl[:first_ns - 1] for m in [re.match(r'^\s*#include "(exports-[^"]+\.h)"', l)] if m}
+        self.resources = set()
+        for f, ls in self.files.items():
+            if f.endswith(".h"):
+                self.resources |= {m.group(1) for l in ls for m in [_RES_RE.match(l)] if m}
+        self._root = {}
+
+    def root(self, fbase, n):
+        """None, or (kind, tainted members {(class, name)}, tainted structs) if line n of file fbase uses a name before its declaration"""
+        if (fbase, n) in self._root:
+            return self._root[(fbase, n)]
+        r = None
+        ls = self.files.get(fbase)
+        if ls and 1 <= n <= len(ls):
+            text = ls[n - 1]
+            words = set(re.findall(r"\b[A-Za-z_]\w*\b", text))
+            encl = _enclosing(ls, n)
+            kind = None
+            if fbase in self.early_stubs:
+                if words & (set(self.decl) - self.resources):
+                    kind = "stub-header"
+            elif fbase == self.world_hdr:
+                late = {w for w in words if w in self.decl and min(self.decl[w]) > n}
+                if late and (late & self.resources or (encl and encl[-1] in self.resources) or (set(encl) & self.resources)):
+                    kind = "world-header"
+            if kind:
+                m = re.search(r"\b([A-Za-z_]\w*)\s*\(", text)
+                if m and not re.search(r"\bstruct\s+\w+\s*\{", text):
+                    r = (kind, {(c, m.group(1)) for c in encl[:1]}, set())
+                else:
+                    r = (kind, set(), set(encl))
+        self._root[(fbase, n)] = r
+        return r
+
+
+def classify_unit(layout, errs):
+    """[(key suffix or None)] per error of one translation unit: 'use-before-declaration:<kind>' for root lines and their follow-ons"""
+    roots = {}
+    for e in errs:
+        fbase, n = os.path.basename(e[4]), e[5]
+        if fbase.endswith(".h"):
+            r = layout.root(fbase, n)
+            if r:
+                roots[(fbase, n)] = r
+    members = {(k, c, m) for k, ms, _ in roots.values() for c, m in ms}
+    structs = {(k, s) for k, _, ss in roots.values() for s in ss}
+    out = []
+    for e in errs:
+        fbase, n, raw = os.path.basename(e[4]), e[5], e[6]
+        if (fbase, n) in roots:
+            out.append("use-before-declaration:" + roots[(fbase, n)][0])
+            continue
+        kind = None
+        if fbase.endswith(".cpp"):
+            ls = layout.files.get(fbase, [])
+            text = ls[n - 1] if 1 <= n <= len(ls) else ""
+            for k, c, m in sorted(members):
+                if re.search(r"\b%s\b" % re.escape(c), text) and re.search(r"(?:::|\.|->)%s\(" % re.escape(m), text):
+                    kind = k
+                    break
+            if kind is None:
+                for k, s in sorted(structs):
+                    if re.search(r"\b%s\b" % re.escape(s), raw):
+                        kind = k
+                        break
+        out.append("use-before-declaration:" + kind if kind else None)
+    return out
 
 
 def run(tier):
@@ -68,8 +196,8 @@ def run(tier):
         for cpp in sorted(glob.glob(os.path.join(u["out"], "*.cpp"))):
             cmds.append((f"{u['i']}:{os.path.basename(cpp)}",
                          ["g++", "-std=c++20", "-fsyntax-only", "-w", "-fpermissive", "-fmax-errors=4", "-fno-diagnostics-color", "-D_GLIBCXX_USE_DEPRECATED=0", "-I", u["out"], "-I", TEST_HEADERS, "-I", HELPER, cpp]))
-    res = run_commands(cmds, wd, workers=16, timeout_ms=120000)
-    ncompiled = 0
+    res = run_commands(cmds, wd, workers=16, timeout_ms=120000, stderr_chars=200000)     # every diagnostic, not head + tail
+    ncompiled = n_followon = 0
     for cid, r in sorted(res.items()):
         ncompiled += 1
         if r["rc"] != 0:
@@ -80,8 +208,14 @@ def run(tier):
             err = r.get("stderr_head", "") + r["stderr"]
             # every error g++ reports for the file (at most 4: -fmax-errors) is a violation of its own, identified by the world
             # (adversarial worlds and corpus files by name), the file and the message (which names the offending token / type)
-            for where, msg, site, line in gxx_errors(err) or [("?", err[-200:], "", err[-200:])]:
-                out.violation(f"g++:{scope}:{where}:{msg[:100]}", f"generated C++ for {name} does not type-check: {line[:300]}",
+            # -- except that what follows from a use before declaration in the generated headers is keyed as that (see above)
+            errs = gxx_errors(err)
+            kinds = classify_unit(HeaderLayout(os.path.join(wd, "out", str(i))), errs)
+            n_followon += sum(1 for k in kinds if k)
+            for e, kind in zip(errs, kinds) if errs else [(("?", err[-200:], "", err[-200:]), None)]:
+                where, msg, site, line = e[:4]
+                key = f"g++:{scope}:{kind}" if kind else f"g++:{scope}:{where}:{msg[:100]}"
+                out.violation(key, f"generated C++ for {name} does not type-check: {line[:300]}",
                               {"wit": open(p).read() if os.path.isfile(p) else p, "stderr": err[-2500:]})
     shutil.rmtree(os.path.join(wd, "out"), ignore_errors=True)
     write_ndjson(os.path.join(wd, "violations.ndjson"), [{"key": k, "desc": d, "wit": r.get("wit", "")[:1500]} for k, d, r in out.violations])
@@ -95,6 +229,7 @@ def run(tier):
                 "-fsyntax-only against crates/cpp/test_headers and helper-types; non-trivial = distinct (constructor, position) cells",
         "samples": [{"wit": open(units[3]["wit"]).read()}],
         "units": len(units), "generation_failed_not_judged_here": gen_fail,
+        "errors_attributed_to_use_before_declaration": n_followon,
         "excluded_features": sorted(x for x in excl if "|" not in x and "&" not in x),
         "compiler_flags_note": "-fpermissive: pointer<->int32 casts are valid on wasm32 but narrowing on the 64-bit host; "
                                "-D_GLIBCXX_USE_DEPRECATED=0: libstdc++'s legacy std::unexpected() clashes with test_headers/expected (libc++ has none)",
@@ -109,6 +244,35 @@ def selftest():
     r = run_commands([("x", ["g++", "-std=c++20", "-fsyntax-only", "-I", TEST_HEADERS, os.path.join(wd, "bad.cpp")])], wd)
     if r["x"]["rc"] == 0:
         log("selftest C31: ill-formed C++ accepted")
+        return 2
+    # the use-before-declaration classifier attributes the follow-ons of F-C31-1 and nothing else: in a unit that has the
+    # finding, an unrelated ill-formed statement added to the .cpp (and one added to the stub header) keep their own keys
+    cli = cli_exe()
+    d = os.path.join(wd, "ubd")
+    shutil.rmtree(d, ignore_errors=True)
+    os.makedirs(d)
+    open(os.path.join(d, "w.wit"), "w").write(
+        "package t:w;\ninterface i {\n  resource r0 { constructor(); m: func(x: list<t0>); n: func(x: u32); }\n"
+        "  record t0 { f0: u32, f1: string }\n}\nworld w { export i; }\n")
+    o = os.path.join(d, "out")
+    if run_cli(cli, "cpp", os.path.join(d, "w.wit"), o, cli_args("cpp"))["status"] != "ok":
+        log("selftest C31: generation failed")
+        return 2
+    stub = glob.glob(os.path.join(o, "exports-*.h"))[0]
+    open(stub, "a").write("\nstatic int verif_bad_in_stub = verif_undeclared_in_stub;\n")
+    open(os.path.join(o, "w.cpp"), "a").write("\nint verif_bad_in_cpp() { return verif_undeclared_in_cpp; }\n")
+    r = run_commands([("y", ["g++", "-std=c++20", "-fsyntax-only", "-w", "-fpermissive", "-fmax-errors=8", "-fno-diagnostics-color",
+                             "-D_GLIBCXX_USE_DEPRECATED=0", "-I", o, "-I", TEST_HEADERS, "-I", HELPER, os.path.join(o, "w.cpp")])], wd, stderr_chars=200000)
+    errs = gxx_errors(r["y"].get("stderr_head", "") + r["y"]["stderr"])
+    kinds = classify_unit(HeaderLayout(o), errs)
+    attributed = [e[6] for e, k in zip(errs, kinds) if k]
+    own_key = [e[6] for e, k in zip(errs, kinds) if not k]
+    if not any("T0" in m for m in attributed) or not any("to \u2018int\u2019" in m for m in attributed):
+        log(f"selftest C31: the stub line and the call that follows from it were not attributed: {attributed}")
+        return 2
+    if not any("verif_undeclared_in_cpp" in m for m in own_key) or not any("verif_undeclared_in_stub" in m for m in own_key) \
+            or any("verif_" in m for m in attributed):
+        log(f"selftest C31: an unrelated error was attributed to the listed finding: {attributed} / {own_key}")
         return 2
     log("selftest C31 ok")
     return 0
